@@ -263,6 +263,17 @@ def handle (args : List V) : V :=
     match sig.listOf? V.rat?, pad.nat?, b.bits?, bd.int? with
     | some sig, some pad, some b, some bd => encExcept (encList encRow) (computeCyclepoints sig pad b bd)
     | _, _, _, _ => bad "cyclepoints.model"
+  -- the COMPOSED model of compute_features(burst_method='cycles'): x is the ORIGINAL signal, b the sign pattern of the filtered padded (for trough: negated) signal,
+  -- amp the band amplitude; answer: sample rows (peak-centred field order), shape rows, burst features, labels
+  | [.atom "pipeline.model", c, x, pad, b, amp, bd, th] =>
+    match decCentre c, x.listOf? V.rat?, pad.nat?, b.bits?, amp.listOf? V.rat?, bd.int?, decCycThresh th with
+    | some c, some x, some pad, some b, some amp, some bd, some th =>
+      match pipelineCycles c x pad b amp bd th with
+      | .ok o => .list [.atom "ok", encList encRow o.samples, encList encShape o.shape,
+                        encList (fun r : CycRow => .list [encORat r.ampFraction, encORat r.ampConsistency, encORat r.periodConsistency, encORat r.monotonicity]) o.feats,
+                        encBits o.labels]
+      | .error e => encErr e
+    | _, _, _, _, _, _, _ => bad "pipeline.model"
   | [.atom "cyclepoints.wf", rows, n, bd] =>
     match rows.listOf? decRow, n.nat?, bd.int? with
     | some rows, some n, some bd => encBool (decide (wellFormed rows n bd))
